@@ -453,11 +453,17 @@ func (h *harness) evalChain(st *stats, sp Spec) {
 	}
 	if kf != nil {
 		effect := "kind-not-recognised"
-		pre := "target=" + map[string]string{"target": "error built so far", "orig": "sentinel"}[kf.role]
-		if kf.role == "orig" {
-			pre += ", original=error built so far"
-		} else if isWrapFn(kf.fn) {
-			pre += ", original=" + kf.other
+		pre := "target=sentinel or constructor-built error"
+		dims := map[string]string{"kind": kindName(kf.accept[0]), "msg": string(sp.Steps[kf.step].MsgC)}
+		switch {
+		case kf.role == "orig":
+			pre = "target=sentinel or nil, original=constructor-built error or sentinel"
+		case isWrapFn(kf.fn) && strings.Contains(kf.other, "ctx"):
+			pre += ", original=context error"
+			dims["original"] = kf.other
+		case isWrapFn(kf.fn):
+			pre += ", original=foreign error or nil"
+			dims["original"] = kf.other
 		}
 		if kf.ctx {
 			effect = "cancellation/deadline-cause-reclassified"
